@@ -94,7 +94,7 @@ var c02Wrappers = []c02Wrapper{
 
 // --- call forms: (callee n' acc') written in five ways -------------------------
 
-var c02CallForms = []string{"direct", "thread-first", "thread-last", "funcall", "apply", "head-call"}
+var c02CallForms = []string{"direct", "thread-first", "thread-last", "funcall", "apply", "head-call", "apply-list", "unpack", "funcall-function"}
 
 func c02Call(form, callee string, n, acc *sx.N) *sx.N {
 	switch form {
@@ -106,6 +106,13 @@ func c02Call(form, callee string, n, acc *sx.N) *sx.N {
 		return sx.Call("funcall", sx.Y(callee), n, acc)
 	case "apply":
 		return sx.Call("apply", sx.Y(callee), n, sx.Call("list", acc))
+	case "apply-list":
+		// all arguments in the list, none leading
+		return sx.Call("apply", sx.Y(callee), sx.Call("list", n, acc))
+	case "unpack":
+		return sx.Call("unpack", sx.Y(callee), sx.Call("list", n, acc))
+	case "funcall-function":
+		return sx.Call("funcall", sx.Call("function", sx.Y(callee)), n, acc)
 	case "head-call":
 		// ((callee -2 0) n' acc'): the HEAD is itself a call into the loop (it returns a
 		// function that continues it); a head is evaluated, never tail-called
